@@ -71,6 +71,13 @@ class C12Common:
     def check_positions(self, w, where, ctx):
         atoms = w.atoms
         self.nchecks += 1
+        # the constraints the user set must still be ON the atoms (nothing in the package may take them off)
+        have = "+".join(sorted({type(c).__name__ for c in atoms.constraints})) or "none"
+        # (not in grand-canonical runs: ASE itself drops a FixAtoms whose atoms have all been deleted)
+        if have != self.kinds and w.sc["driver"] != "GrandCanonical" and not getattr(self, "reported_removed", False):
+            self.reported_removed = True
+            self.violate(w, "constraint_removed_from_atoms", f"{ctx}|constraints={self.kinds}|at={where}",
+                         f"the user set {self.kinds}; the atoms now carry {have}")
         if getattr(self, "by_uid", None) is not None:
             uid = atoms.arrays.get("uid")
             if uid is None or len(uid) != len(atoms):
@@ -203,7 +210,7 @@ class C12(HistoryCampaign):
         # FixAtoms + FixCom is not generated: ASE applies constraints one after the other, so the
         # last one (a global shift, or a row reset) undoes the other by construction - not quansino's doing
         "constraint_kinds": ["fixatoms", "fixcom", "fixrot", "fixrot", "fixatoms+fixrot", "fixcom+fixrot"],
-        "arrays": 0.3, "composites": 0.4, "extended": 0.0,
+        "arrays": 0.3, "composites": 0.4, "extended": 0.0, "gc_fixatoms_always": True,
         "p_force": [0.0, 0.5, 0.9], "p_veto": [0.0, 0.1, 0.3], "preselect": 0.1, "steps_max": 12, "triclinic": 0.3,
     }
     rule = ("one evaluation = one generated deployment with FixAtoms / FixCom / FixRot (and combinations) under "
@@ -231,6 +238,10 @@ class C12(HistoryCampaign):
             n = len(sc["atoms"]["numbers"])
             sc["edits"] = [{"before_segment": 1, "shift": [gen.rfloat(rnd, -0.8, 0.8, 3) for _ in range(3)],
                             "rows": sorted(rnd.sample(range(n), rnd.randint(1, n))), "constraints": cons}]
+        if _kinds(sc) in ("FixAtoms", "FixAtoms+FixRot") and rnd.random() < 0.3:
+            # a trajectory is written while the run goes on (ASE's extended-xyz writer copes with constraint lists
+            # that start with FixAtoms)
+            sc["files"] = {"trajectory": {"name": "traj.xyz", "as": "object", "mode": "a"}, "logging_interval": rnd.choice([1, 2])}
         if "FixRot" in _kinds(sc) and len(sc["atoms"]["numbers"]) < 3:
             sc["atoms"]["constraints"] = [c for c in sc["atoms"]["constraints"] if c["type"] != "FixRot"] or [{"type": "FixCom"}]
         return sc
